@@ -84,7 +84,7 @@ func genC18(env *core.Env, emit func(core.Case)) {
 		var sc []string
 		for _, s := range c.Script {
 			switch {
-			case strings.HasPrefix(s, "ok"):
+			case strings.HasPrefix(s, "ok"), strings.HasPrefix(s, "sok"):
 				sc = append(sc, "ok")
 			case s == "rerr", s == "refuse":
 				sc = append(sc, s)
